@@ -541,11 +541,14 @@ def gen_inst(outdir, seed, k):
                 off = size - len(payload); expr = ("i32.const", off)
         fixed.append((off, payload, expr))
     segs = fixed
-    for off, payload, expr in segs:
-        m.data_active([expr], payload)
     passive = bytes(r.randrange(256) for _ in range(24))
-    m.data_passive(passive)
-    passive_index = len(segs)
+    passive_index = r.randrange(0, len(segs) + 1)       # the passive segment sits anywhere among the active ones
+    for j, (off, payload, expr) in enumerate(segs):
+        if j == passive_index:
+            m.data_passive(passive)
+        m.data_active([expr], payload)
+    if passive_index == len(segs):
+        m.data_passive(passive)
     # element segments
     tab = [-1] * 8
     elems = []
